@@ -10,6 +10,8 @@
 import SshAudit.Gen.Logic5
 import SshAudit.Lemmas.Py
 import SshAudit.Model.Wire
+import SshAudit.Lemmas.Wire
+import SshAudit.Props.C10
 set_option linter.unusedSimpArgs false
 namespace SshAudit.GenLogic
 open SshAudit
@@ -430,5 +432,20 @@ theorem parse_mpint_eq_model (v : Bytes) (hv : v ≠ []) :
 
 example : ((Gen.Logic.mpint2_pad_fmt [0xfe, 0x80, 0, 0, 0]).bind fun pf => Gen.Logic.parse_mpint [0xfe, 0x80, 0, 0, 0] pf.1 pf.2) = some (-0x180000000) := by
   decide
+
+/-- the regenerated reader inverts the model's writer: for every non-zero integer, what `_create_mpint` (model `Wire.createMpint`, tied by
+    correspondence) writes is read back as that integer by the code of `read_mpint2` / `_parse_mpint` as it stands in the source today -/
+theorem regenerated_reader_inverts_writer (n : Int) (hn : n ≠ 0) :
+    ((Gen.Logic.mpint2_pad_fmt (Wire.bytesOf (Wire.createMpint n))).bind fun pf =>
+        Gen.Logic.parse_mpint (Wire.bytesOf (Wire.createMpint n)) pf.1 pf.2) = some n := by
+  have hne : Wire.bytesOf (Wire.createMpint n) ≠ [] := by
+    intro h
+    have h0 : Wire.createMpint n = [] := by
+      unfold Wire.bytesOf at h
+      exact List.map_eq_nil_iff.mp h
+    have := C10.createMpint_signed n
+    rw [h0] at this
+    exact hn (by simpa [Wire.signedBE] using this.symm)
+  rw [parse_mpint_eq_model _ hne, Wire.natsOf_bytesOf _ (C10.createMpint_lt n), C10.createMpint_signed]
 
 end SshAudit.GenLogic
